@@ -1161,3 +1161,11 @@ M("C20-unique-name-lookup-needs-fptrs", "C20", "src/interrogatedb/interrogateDat
 M("C14-type-trait-returns-node-address", "C14", "src/cppparser/cppExpression.cxx",
   "->is_enum())", "->as_enum_type())",
   expect="R14.7|CPPExpression::evaluate|Result(void*)")
+
+M("C07-right-shift-in-unsigned-domain", "C07", "src/cppparser/cppExpression.cxx",
+  "      return Result(r1.as_integer() >> r2.as_integer());", "      return Result((int)((unsigned int)r1.as_integer() >> r2.as_integer()));",
+  expect="R07.3|")
+
+M("C07-benign-left-shift-in-unsigned-domain", "C07", "src/cppparser/cppExpression.cxx",
+  "      return Result(r1.as_integer() << r2.as_integer());", "      return Result((int)((unsigned int)r1.as_integer() << r2.as_integer()));",
+  benign=True)
